@@ -22,6 +22,7 @@
 //   T secs           advance the fake clock
 //   D sid            destroy session
 //   Z dict...        (no session alive) raw dump of the named user dbs
+#include <unistd.h>
 #include <rime_api.h>
 #include <rime/common.h>
 #include <rime/deployer.h>
@@ -189,11 +190,16 @@ static int do_run(int argc, char** argv) {
   while (std::getline(script, line)) {
     if (line.empty())
       continue;
-    printf("@ %d\n", index);
-    mark(index++);
     std::istringstream is(line);
     std::string cmd;
     is >> cmd;
+    if (cmd == "!") {
+      // the process is killed at this command boundary: no destructor, no flush, no mark in the log
+      fflush(stdout);
+      _exit(137);
+    }
+    printf("@ %d\n", index);
+    mark(index++);
     if (cmd == "T") {
       long d = 0;
       is >> d;
